@@ -56,6 +56,16 @@ func c16ValueSets(thorough bool) []c16ValueSet {
 	return vs
 }
 
+var c16DegenerateValues = []struct{ Name, V string }{
+	{"comma", ","}, {"commas", ",,"}, {"comma-space-comma", ", ,"}, {"commas-then-value", ",,evil.test"}, {"semicolon", ";"}, {"colon", ":"},
+	{"empty", ""}, {"tab", "\t"}, {"spaces", "   "}, {"very-long", strings.Repeat("a1.", 2700) + "test"}, {"non-ascii", "h\u00f4st.ex\u00e4mple\u3002test"},
+	{"garbage", "%%%zz//\\\\..@@[::"}, {"quote-lt", "\"><x y=\"'"}, {"scheme-like", "https://"}, {"slash", "/"},
+}
+
+// endpoint classes of the quick tier's degenerate-value slice
+var c16DegenerateEndpoint = map[string]bool{"protected-anon": true, "protected-auth": true, "skip-auth-path-anon": true, "api-anon": true, "auth-only-anon": true, "start-rd": true, "start-no-rd": true,
+	"sign-in-get-no-rd": true, "sign-out-no-rd": true, "callback-invalid-state": true, "static": true, "ping": true}
+
 type c16Cfg struct {
 	Name   string
 	Flags  []string
@@ -467,7 +477,7 @@ func c16Pick(f map[string]string, keys []string) map[string]string {
 func TestVerif_C16(t *testing.T) {
 	run := vfNewRun(t, "C16", "exploration")
 	run.SetRule("reverse-proxy off: 27 base requests (protected, skip-auth path, api route, preflight, auth-only, start, sign_in GET/POST, sign_out, callback invalid/error/valid, static, userinfo, ping, robots; anonymous and with session) " +
-		"x all 2^6 subsets of {X-Forwarded-Host,-Proto,-Uri,-For, X-Real-IP, one other client-IP header} x value sets x 12 configurations (several cookie domains with a Host outside all of them (IP literal / internal name), trusted IPs, skip-auth/api routes, whitelist + cookie domains, relative/absolute redirect-url, cookie-secure, skip-provider-button, wire driver, force-https over plain HTTP, force-https with every request over a real TLS listener) x peers (untrusted, trusted, '@' = unix-socket listener, 'unix', v6 loopback); " +
+		"x all 2^6 subsets of {X-Forwarded-Host,-Proto,-Uri,-For, X-Real-IP, one other client-IP header} x value sets (hosts on/off the whitelist, addresses, URIs; plus 15 degenerate values — only separators, empty, white space, very long, non-ASCII, garbage — per single header and all together on a thinner slice) x 12 configurations (several cookie domains with a Host outside all of them (IP literal / internal name), trusted IPs, skip-auth/api routes, whitelist + cookie domains, relative/absolute redirect-url, cookie-secure, skip-provider-button, wire driver, force-https over plain HTTP, force-https with every request over a real TLS listener) x peers (untrusted, trusted, '@' = unix-socket listener, 'unix', v6 loopback); " +
 		"reverse-proxy on: 5 configured real-client-IP headers x value of that header x subsets of all other forwarding headers. cell = (config, endpoint, header subset, value set) / (rp-on, configured header, its value class, endpoint)")
 	run.Assume("forwarding headers received by the upstream are excluded from the comparison (legitimately passed through; the proxy appends the peer to X-Forwarded-For)",
 		"random parts are masked: nonce, code_challenge, the random half of state, cookie values, href of redirect bodies",
@@ -535,6 +545,12 @@ func TestVerif_C16(t *testing.T) {
 	// every instance is built before the first request is served: option validation reconfigures the package-level
 	// logger, which must not overlap with handler goroutines still finishing on the wire servers
 	rpOn := c16BuildReverseProxyOn(run, w)
+	// The repository's logger is package-level state configured by the LAST validated option set. Production runs with
+	// request logging on (the default), and the request logger consults the request host for every request; the instance
+	// built last therefore turns request logging on for the whole process (output is discarded by the rig).
+	if _, err := w.NewProxy("--request-logging=true"); err != nil {
+		t.Fatalf("logging instance: %v", err)
+	}
 
 	// ---- part 1: reverse-proxy off, pairs ---------------------------------------------------------------
 	type job struct {
@@ -576,6 +592,65 @@ func TestVerif_C16(t *testing.T) {
 		}
 		run.Count("base_requests", 1)
 		run.Count("base_status_"+base.Fields["status"], 1)
+		judge := func(hdr [][2]string, id, cell string) {
+			req, resp := j.x.do(j.ep, j.peer, hdr, id)
+			obs := c16Observe(w, resp, id)
+			if j.peer == "@" {
+				run.Count("pairs_with_unix_socket_peer", 1)
+			}
+			if cfg.Lenient {
+				run.Count("pairs_with_host_outside_cookie_domains", 1)
+			}
+			run.Eval(cell)
+			run.Count("pairs", 1)
+			if cfg.OverTLS {
+				run.Count("pairs_over_tls", 1)
+				if obs.Fields["status"] != "308" {
+					run.Count("pairs_over_tls_served_not_redirected", 1)
+				}
+			}
+			if obs.Fields["upstream-hit"] != "0" {
+				run.Count("pairs_reaching_upstream", 1)
+			}
+			if obs.Fields["location"] != "" {
+				run.Count("pairs_with_redirect", 1)
+			}
+			if obs.Fields["set-cookie"] != "" {
+				run.Count("pairs_with_set_cookie", 1)
+			}
+			d := c16Diff(base, obs)
+			if len(d) == 0 {
+				run.SampleEvery(3001, func() interface{} {
+					return map[string]interface{}{"config": cfg.Name, "endpoint": j.ep.Name, "added": hdr, "status": obs.Fields["status"], "location": obs.Fields["location"], "state_redirect": obs.Fields["state-redirect"], "redirect_uri": obs.Fields["oauth-redirect-uri"], "set_cookie": obs.Fields["set-cookie"]}
+				})
+				return
+			}
+			raw := ""
+			if req != nil {
+				raw = string(req.Bytes())
+			}
+			driver := "direct"
+			if cfg.Wire {
+				driver = "wire"
+			}
+			if cfg.OverTLS {
+				driver = "wire-tls"
+			}
+			sig := c16Sig(d[0])
+			note := ""
+			if st := obs.Fields["status"]; st == "panic" || strings.HasPrefix(st, "error:") {
+				// the handler panicked (direct driver) or the connection was dropped without a response (wire drivers)
+				sig = "c16:panic-or-no-response-with-header"
+				note = vfTrunc(resp.Panic+"\n"+resp.Stack, 4000)
+			}
+			shown := make([][2]string, len(hdr))
+			for k, h := range hdr {
+				shown[k] = [2]string{h[0], vfTrunc(h[1], 60)}
+			}
+			run.Violation(sig, fmt.Sprintf("reverse-proxy off, config %q, %s%s: adding %q changes %v (%q -> %q)", cfg.Name, j.ep.Name, c16PeerNote(j.peer), shown, d, vfTrunc(base.Fields[d[0]], 160), vfTrunc(obs.Fields[d[0]], 160)),
+				c16Witness{Config: cfg.Name, Flags: j.x.P.Flags, Endpoint: j.ep.Name, Peer: j.peer, Driver: driver, Added: hdr, BaseRequest: baseReq, Request: req, RawRequest: vfTrunc(raw, 6000),
+					Differing: d, Without: c16Pick(base.Fields, d), With: c16Pick(obs.Fields, d), Note: note})
+		}
 		for mask := 1; mask < 64; mask++ {
 			for vi, vs := range vsets {
 				// quick tier: one rotating value set per (subset, job) — every subset meets every value set across endpoints; the
@@ -588,56 +663,24 @@ func TestVerif_C16(t *testing.T) {
 						continue
 					}
 				}
-				hdr := c16Headers(mask, vs, ji)
-				id := fmt.Sprintf("%s-m%d-v%d", idp, mask, vi)
-				req, resp := j.x.do(j.ep, j.peer, hdr, id)
-				obs := c16Observe(w, resp, id)
-				cell := fmt.Sprintf("%s|%s|peer=%s|subset=%02x|%s", cfg.Name, j.ep.Name, j.peer, mask, vs.Name)
-				if j.peer == "@" {
-					run.Count("pairs_with_unix_socket_peer", 1)
-				}
-				if cfg.Lenient {
-					run.Count("pairs_with_host_outside_cookie_domains", 1)
-				}
-				run.Eval(cell)
-				run.Count("pairs", 1)
-				if cfg.OverTLS {
-					run.Count("pairs_over_tls", 1)
-					if obs.Fields["status"] != "308" {
-						run.Count("pairs_over_tls_served_not_redirected", 1)
-					}
-				}
-				if obs.Fields["upstream-hit"] != "0" {
-					run.Count("pairs_reaching_upstream", 1)
-				}
-				if obs.Fields["location"] != "" {
-					run.Count("pairs_with_redirect", 1)
-				}
-				if obs.Fields["set-cookie"] != "" {
-					run.Count("pairs_with_set_cookie", 1)
-				}
-				d := c16Diff(base, obs)
-				if len(d) == 0 {
-					run.SampleEvery(3001, func() interface{} {
-						return map[string]interface{}{"config": cfg.Name, "endpoint": j.ep.Name, "added": hdr, "status": obs.Fields["status"], "location": obs.Fields["location"], "state_redirect": obs.Fields["state-redirect"], "redirect_uri": obs.Fields["oauth-redirect-uri"], "set_cookie": obs.Fields["set-cookie"]}
-					})
-					continue
-				}
-				raw := ""
-				if req != nil {
-					raw = string(req.Bytes())
-				}
-				driver := "direct"
-				if cfg.Wire {
-					driver = "wire"
-				}
-				if cfg.OverTLS {
-					driver = "wire-tls"
-					run.Count("pairs_over_tls", 0)
-				}
-				run.Violation(c16Sig(d[0]), fmt.Sprintf("reverse-proxy off, config %q, %s%s: adding %v changes %v (%q -> %q)", cfg.Name, j.ep.Name, c16PeerNote(j.peer), hdr, d, vfTrunc(base.Fields[d[0]], 160), vfTrunc(obs.Fields[d[0]], 160)),
-					c16Witness{Config: cfg.Name, Flags: j.x.P.Flags, Endpoint: j.ep.Name, Peer: j.peer, Driver: driver, Added: hdr, BaseRequest: baseReq, Request: req, RawRequest: raw,
-						Differing: d, Without: c16Pick(base.Fields, d), With: c16Pick(obs.Fields, d)})
+				judge(c16Headers(mask, vs, ji), fmt.Sprintf("%s-m%d-v%d", idp, mask, vi), fmt.Sprintf("%s|%s|peer=%s|subset=%02x|%s", cfg.Name, j.ep.Name, j.peer, mask, vs.Name))
+			}
+		}
+		// degenerate VALUES (only separators, empty, white space, very long, non-ASCII, garbage) for every forwarding header
+		// alone and for all of them together, on a thinner slice of base requests: first peer of the configuration and, in
+		// the quick tier, the endpoint classes that consult host / scheme / URI / client address plus half of the values
+		firstPeer := len(cfg.Peers) == 0 || j.peer == cfg.Peers[0]
+		if !firstPeer || j.ep.Flow != "" || (!run.Env.Thorough() && !c16DegenerateEndpoint[j.ep.Name]) {
+			return
+		}
+		for di, dv := range c16DegenerateValues {
+			if !run.Env.Thorough() && (di+ji+int(run.Env.Seed))%2 != 0 {
+				continue
+			}
+			for _, mask := range []int{1, 2, 4, 8, 16, 32, 63} {
+				vs := c16ValueSet{Name: "degenerate:" + dv.Name, V: [6]string{dv.V, dv.V, dv.V, dv.V, dv.V, dv.V}}
+				run.Count("pairs_with_degenerate_value", 1)
+				judge(c16Headers(mask, vs, ji+di), fmt.Sprintf("%s-d%d-m%d", idp, di, mask), fmt.Sprintf("%s|%s|peer=%s|subset=%02x|%s", cfg.Name, j.ep.Name, j.peer, mask, vs.Name))
 			}
 		}
 	})
@@ -649,6 +692,10 @@ func TestVerif_C16(t *testing.T) {
 
 	if run.Counter("pairs_over_tls_served_not_redirected") < 800 {
 		fmt.Printf("INCONCLUSIVE property=C16 reason=too few pairs over the TLS listener (%d served of %d)\n", run.Counter("pairs_over_tls_served_not_redirected"), run.Counter("pairs_over_tls"))
+		t.Fail()
+	}
+	if run.Counter("pairs_with_degenerate_value") < int64(run.Env.Pick(3000, 20000)) {
+		fmt.Printf("INCONCLUSIVE property=C16 reason=too few pairs with degenerate header values (%d)\n", run.Counter("pairs_with_degenerate_value"))
 		t.Fail()
 	}
 	if run.Counter("pairs_with_unix_socket_peer") < 2000 || run.Counter("pairs_with_host_outside_cookie_domains") < 2000 {
